@@ -260,10 +260,11 @@ def rule_concatenate(ctx):
                 and newaxes[2][2][0] == 'sub' and newaxes[2][2][2] == ('slice', T.CONST_NONE, AXU, T.CONST_NONE) \
                 and newaxes[3][0] == 'sub' and newaxes[3][2] == ('slice', AXU, T.CONST_NONE, T.CONST_NONE) and newaxes[3][1] == newaxes[2][2][1]
             sub = newaxes[3][1] if okn else None
-            if not okn and newaxes[0] == 'mut' and newaxes[2] == 'insert' and tuple(newaxes[3]) == (AXU, cax[0]) \
-                    and newaxes[1][0] == 'call' and T.dotted(newaxes[1][1]) == 'list' and len(newaxes[1][2]) == 1:
-                # other spelling: a fresh list of the other axes, then insert(k, newaxis)
-                okn, sub = True, newaxes[1][2][0]
+            if not okn and newaxes[0] == 'mut' and newaxes[2] == 'insert' and tuple(newaxes[3]) == (AXU, cax[0]):
+                # canonical spelling of `subaxes[:k] + [newaxis] + subaxes[k:]` and of a fresh list of the other axes followed by insert(k, newaxis)
+                okn, sub = True, newaxes[1]
+                if sub[0] == 'call' and T.dotted(sub[1]) == 'list' and len(sub[2]) == 1:
+                    sub = sub[2][0]
             if okn:
                 okn = sub[0] == 'comp' and sub[3][0][1] == ('call', ('name', 'enumerate'), (('attr', ('sub', joined, const(0)), 'axes'),), ()) \
                     and sub[3][0][2] == (T.mkcmp('!=', ('idx', ('attr', ('sub', joined, const(0)), 'axes'), sub[3][0][0]), AXU),)
